@@ -219,6 +219,9 @@ func (g *DocGen) ext(o obj, path []string, kind string, depth int) {
 			continue
 		}
 		o[nm] = g.payload(1, true)
+		if nm == "x-nullable" && g.R.Intn(2) == 0 {
+			o[nm] = g.R.Intn(2) == 0 // the well-known extensions carry the values tools give them
+		}
 		if g.XOrder && g.R.Intn(4) == 0 {
 			// the decoder takes any case of the prefix and keeps the name as written: "X-foo" next to "x-foo" are two members
 			o["X-"+nm[2:]] = g.payload(1, true)
@@ -612,6 +615,12 @@ func (g *DocGen) Parameter(path []string, depth int, allowRef bool) obj {
 	}
 	if in == "body" {
 		g.set(o, k, "schema", g.Schema(sub(path, "schema"), depth+1))
+		if !g.Valid && !g.Fragile && g.Only == nil && g.R.Intn(6) == 0 {
+			// a body parameter that also carries members of the other parameter forms: the codec reads and writes them whatever "in" says
+			g.simpleSchema(o, path, k, depth, false, false)
+			g.commonValidations(o, path, k, depth)
+			g.cell(k, "body-with-simple-schema-members")
+		}
 	} else {
 		g.simpleSchema(o, path, k, depth, in == "query" || in == "formData", in == "formData")
 		g.commonValidations(o, path, k, depth)
@@ -667,6 +676,7 @@ func (g *DocGen) Responses(path []string, depth int) obj {
 	codes := []string{"200", "201", "204", "400", "404", "500", "999"}
 	if !g.Fragile && !g.Valid {
 		codes = append(codes, "099") // three digits with a leading zero: admitted by the meta-schema pattern
+		codes = append(codes, "0")   // not a status code, but a numeric member name the codec keeps (next to "default" it must stay itself)
 	}
 	n := g.count(2)
 	if g.Only != nil {
@@ -945,7 +955,7 @@ func init() {
 	}
 }
 
-var unknownKeywords = []string{"const", "examples", "if", "contentMediaType", "deprecated", "é", "a\"b", "my keyword", "$id", "$comment", "a\\b"}
+var unknownKeywords = []string{"const", "examples", "if", "contentMediaType", "deprecated", "é", "a\"b", "my keyword", "$id", "$comment", "a\\b", ""}
 
 // ValidSiblingRefs are references into the sibling document used by schema-valid documents (C19).
 var ValidSiblingRefs = []string{"other.json#/definitions/Shared", "other.json#/definitions/a~1b", "./other.json#/definitions/Tree"}
